@@ -179,9 +179,9 @@ functions = [
                     'struct cbuf output = (self->pend_n == 0) ? new_data : cb_cat(cb_of_pending(self), new_data);', 1),
                    (r'output\.empty\(\)', '(output.n == 0)', 1), (r'socket\(\)\.set_non_blocking_if_needed\(true,e\)', 'sock_set_nb(&e)', 1),
                    (r'socket\(\)\.write_some\(output,e\)', 'sock_write_some(output, &e)', 1), (r'(output|new_data)\.bytes_count\(\)', r'\1.n', 1),
-                   (r'pending_output_\.clear\(\)', 'pend_clear(self)', 1), (r'append_pending\(new_data\)', 'append_pending_abs(self, new_data)', 0),
+                   (r'pending_output_\.clear\(\)', 'pend_clear(self)', 1), (r'append_pending\((\w+)\)', r'append_pending_abs(self, \1)', 0),
                    (r'std::vector<char> tmp;', 'struct conn tmp = {0, 0};', 0), (r'pending_output_\.swap\(tmp\)', 'pend_swap(self, &tmp)', 0),
-                   (r'append_pending\(output \+ n\)', 'append_pending_abs(self, cb_advance(output, n))', 0), (r'socket\(\)\.would_block\(e\)', 'sock_would_block(e)', 1),
+                   (r'append_pending\((\w+) \+ (\w+)\)', r'append_pending_abs(self, cb_advance(\1, \2))', 0), (r'socket\(\)\.would_block\(e\)', 'sock_would_block(e)', 1),
                    (r'e=booster::system::error_code\(\);', 'e = 0;', 1)],
          contract=r'''
 __CPROVER_requires(__CPROVER_rw_ok(self, sizeof(*self)) && __CPROVER_rw_ok(e, sizeof(*e)) && *e == 0 && self->pend_src == 0 && self->pend_n <= BUF_CAP && g_new_n <= BUF_CAP && g_ws_calls == 0)
